@@ -45,9 +45,20 @@ def kind_of(tt, val):
 
 
 def sig_of_pairs(pairs):
+    """significant tokens; a multi-word keyword token (ORDER BY, NOT NULL, END IF) is entered word by word
+    (`cont` marks the continuation words), so that `not /* c */ null` and `not null` compare equal"""
     from sqlparse import tokens as T
-    return [{'ty': str(tt), 'val': cps(v), 'k': kind_of(tt, v)} for tt, v in pairs
-            if tt not in T.Whitespace and v != '']
+    out = []
+    for tt, v in pairs:
+        if tt in T.Whitespace or v == '':
+            continue
+        k = kind_of(tt, v)
+        if k == 'kw' and len(v.split()) > 1:
+            for i, w in enumerate(v.split()):
+                out.append({'ty': str(tt), 'val': cps(w), 'k': k, 'cont': i > 0})
+        else:
+            out.append({'ty': str(tt), 'val': cps(v), 'k': k, 'cont': False})
+    return out
 
 
 def lex_all(text):
@@ -66,7 +77,7 @@ def format_trace(tid, text, opt, second=True):
     from sqlparse.exceptions import SQLParseError
     kw = concrete_options(opt)
     tr = {'id': tid, 'opt': dict(opt), 'text': cps(text), 'exc': '', 'stmts': [], 'out': [], 'outtoks': [],
-          'insig': sig_of_pairs(lexer.tokenize(text)), 'nin': -1, 'nout': -1, 'out2': [], 'out2sig': [], 'wrapped_ok': True,
+          'insig': sig_of_pairs(lexer.tokenize(text)), 'outsig': [], 'nin': -1, 'nout': -1, 'out2': [], 'out2sig': [], 'wrapped_ok': True,
           'stages': []}
     try:
         out = sqlparse.format(text, **dict(kw))
@@ -78,6 +89,7 @@ def format_trace(tid, text, opt, second=True):
         return tr
     tr['out'] = cps(out)
     tr['outtoks'] = lex_all(out)
+    tr['outsig'] = sig_of_pairs(lexer.tokenize(out))
     try:
         tr['nin'] = len(sqlparse.split(text))
         tr['nout'] = len(sqlparse.split(out))
